@@ -139,8 +139,7 @@ def single_run(job, m, api, tol, x0_shape="as_b"):
     at = base_attrs(job, m, api, tol)
     at["x0_shape"] = x0_shape
     at["galerkin_defined"] = bool(rec["gdef"])
-    rp = {"job": {k: job[k] for k in ("id", "A", "b", "x0", "n", "kdim", "complex", "normal", "x0name")},
-          "rec": rec, "m": m, "api": api, "tol": tol, "x0_shape": x0_shape}
+    rp = {"job": _core(job), "rec": rec, "m": m, "api": api, "tol": tol, "x0_shape": x0_shape}
     case = f"{job['id']} m={m} {api} tol={tol:g}" + (" x0(n,)" if x0_shape == "vector" else "")
     viol = []
 
@@ -165,27 +164,42 @@ def single_run(job, m, api, tol, x0_shape="as_b"):
     return viol, res2
 
 
+def _core(job):
+    return {k: job[k] for k in ("id", "A", "b", "x0", "n", "kdim", "complex", "normal", "x0name")}
+
+
+def run_sequence(job, api, tol, ms):
+    """Consecutive budgets ms (ascending, starting at 1 or later) for one entry point: per-state clauses + monotonicity."""
+    viol, n_eval = [], 0
+    first = ms[0]
+    prev = lsqfam.q_to_float(job["per_m"]["0"]["rho2"]) if first == 1 else None
+    for m in ms:
+        v, res2 = single_run(job, m, api, tol, "column")
+        n_eval += 1
+        viol += v
+        if res2 is not None and prev is not None:
+            scale = max(lsqfam.q_to_float(job["per_m"]["0"]["rho2_0"]), 1e-30)
+            if res2 > prev * (1 + 1e-6) + 1e-6 * scale + 1e-10:
+                a = base_attrs(job, m, api, tol)
+                cls = [x.attrs.get("iterate") for x in v if "iterate" in x.attrs]
+                a["iterate"] = cls[0] if cls else "optimal"
+                keep = {str(k): job["per_m"][str(k)] for k in {0, max(m - 1, 0), m}}
+                viol.append(Violation(PROP, "monotone", f"{job['id']} m={m} {api} tol={tol:g}", a,
+                                      f"||b - A x_m||^2 = {res2:.9g} > {prev:.9g} = ||b - A x_(m-1)||^2",
+                                      replay={"monotone": True, "job": _core(job), "recs": keep, "m": m, "api": api, "tol": tol}))
+        prev = res2
+    return viol, n_eval
+
+
 def observe_case(job):
     """All m, both tolerances, both entry points for one catalog system."""
     viol, n_eval = [], 0
     n = job["n"]
     for api in ("gmres", "inv"):
         for tol in TOLS:
-            prev = lsqfam.q_to_float(job["per_m"]["0"]["rho2"])
-            for m in range(1, n + 3):
-                v, res2 = single_run(job, m, api, tol, "column")
-                n_eval += 1
-                viol += v
-                if res2 is not None and prev is not None:
-                    scale = max(lsqfam.q_to_float(job["per_m"]["0"]["rho2_0"]), 1e-30)
-                    if res2 > prev * (1 + 1e-6) + 1e-6 * scale + 1e-10:
-                        a = base_attrs(job, m, api, tol)
-                        cls = [x.attrs.get("iterate") for x in v if "iterate" in x.attrs]
-                        a["iterate"] = cls[0] if cls else "optimal"
-                        viol.append(Violation(PROP, "monotone", f"{job['id']} m={m} {api} tol={tol:g}", a,
-                                              f"||b - A x_m||^2 = {res2:.9g} > {prev:.9g} = ||b - A x_(m-1)||^2",
-                                              replay={"job_id": job["id"], "monotone": True}))
-                prev = res2
+            v, k = run_sequence(job, api, tol, list(range(1, n + 3)))
+            viol += v
+            n_eval += k
     # documented 1-D initial guess through the operator interface
     if job["x0name"] != "0":
         for m in (1, n):
@@ -195,7 +209,13 @@ def observe_case(job):
     return viol, n_eval
 
 
-def observe_multi(mj):
+def _trim_multi(mj, m, api):
+    return {"multi_job": {"mat": mj["mat"], "batch": mj["batch"],
+                          "cols": [dict(_core(c), per_m={str(m): c["per_m"][str(m)]}) for c in mj["cols"]]},
+            "m": m, "api": api}
+
+
+def observe_multi(mj, only=None):
     """Several right-hand sides of one matrix at once; every column against its own TLC optimum."""
     viol, n_eval = [], 0
     cols = mj["cols"]
@@ -211,7 +231,10 @@ def observe_multi(mj):
     n, k = B.shape
     for api in ("gmres", "inv"):
         for m in range(1, n + 3):
+            if only is not None and (m, api) != only:
+                continue
             n_eval += 1
+            rpm = _trim_multi(mj, m, api)
             case = f"{mj['mat']} [{k} columns, {mj['batch']}] m={m} {api}"
             top = max(c["kdim"] for c in cols)
             # some column's Krylov space is exhausted while the iteration continues for the others
@@ -226,11 +249,11 @@ def observe_multi(mj):
                 viol.append(Violation(PROP, "exception", case, dict(common_at, regime="mixed",
                                                                     iterate="n/a" if gd else "galerkin_undefined",
                                                                     **common.exc_info(e)),
-                                      f"{type(e).__name__}: {str(e)[:120]}", replay={"multi": mj["mat"], "m": m, "api": api}))
+                                      f"{type(e).__name__}: {str(e)[:120]}", replay=rpm))
                 continue
             if X.shape != B.shape:
                 viol.append(Violation(PROP, "shape", case, dict(common_at, regime="mixed"), f"solution shape {X.shape} for B {B.shape}",
-                                      replay={"multi": mj["mat"], "m": m, "api": api}))
+                                      replay=rpm))
                 continue
             for j, c in enumerate(cols):
                 rec = c["per_m"][str(m)]
@@ -241,11 +264,11 @@ def observe_multi(mj):
                     at = dict(common_at, regime=regime_of(m, c["kdim"], n), kdim=c["kdim"], iterate=it, column=j,
                               normal=c["normal"], galerkin_defined=bool(rec["gdef"]))
                     viol.append(Violation(PROP, clause, case + f" column {j} ({c['id']})", at, detail,
-                                          replay={"multi": mj["mat"], "m": m, "api": api, "column": j}))
+                                          replay=dict(rpm, column=j)))
             if used > k * (m + 1):
                 viol.append(Violation(PROP, "products", case, dict(common_at, regime="mixed", products=used),
                                       f"{used} column products with A for {k} columns and max_iters={m}",
-                                      replay={"multi": mj["mat"], "m": m, "api": api}))
+                                      replay=rpm))
     return viol, n_eval
 
 
@@ -521,7 +544,17 @@ def _pmap_small(fn, items):
 def replay(path):
     v = json.load(open(path))
     r = v["replay"]
-    if "job" in r:
+    if r.get("monotone"):
+        job = dict(r["job"])
+        job["per_m"] = r["recs"]
+        ms = [r["m"]] if r["m"] == 1 else [r["m"] - 1, r["m"]]
+        res, _ = run_sequence(job, r["api"], r["tol"], ms)
+        res = [x for x in res if x.clause == "monotone"]
+    elif "multi_job" in r:
+        res, _ = observe_multi(r["multi_job"], only=(r["m"], r["api"]))
+        if "column" in r:
+            res = [x for x in res if x.attrs.get("column") == r["column"]]
+    elif "job" in r:
         job = dict(r["job"])
         job["per_m"] = {str(r["m"]): r["rec"]}
         res, _ = single_run(job, r["m"], r["api"], r["tol"], r.get("x0_shape", "column"))
@@ -529,8 +562,7 @@ def replay(path):
         res, _, _ = observe_random((r["random"], r.get("tier", "quick")))
         res = [x for x in res if x.attrs.get("m") == r["m"]]
     else:
-        print("replay of multi-column / monotone cases: re-run ./check C13")
-        return 2
+        raise ValueError("unknown replay object")
     for x in res:
         print(f"VIOLATION property={PROP} replay={path}\n  clause={x.clause} case={x.case} :: {x.detail}")
     new, seen, known = common.triage(PROP, res)
